@@ -3,6 +3,7 @@
 from __future__ import annotations
 
 import ast
+import copy
 
 from .. import cfg as cfgmod
 from ..core import AnalysisError, U, body_walk, call_name, last_attr, try_const
@@ -70,6 +71,163 @@ def check_style_ownership(repo, rep):
         ok, why = fresh(st.value)
         rep.ob("C15.R2", st, "Cell.style: the cached Style is allocated for this cell alone", ok,
                "" if ok else f"{why}: two cells can hold the same Style object, so changing one cell's style changes the other's", key="C15.R2@style:ownership")
+
+
+def _invalidations(repo, func, stmts, bind=None, depth=0):
+    """{(memo attribute, key text or '*')} of the size-memo entries a statement list drops, directly
+    (``self._row_heights[table_id].pop(k, None)``, ``del``, ``.clear()``) or through helper methods of the class (their
+    parameters, including ``*args`` walked by a loop, are bound to the call's arguments)."""
+    from ..symexec import subst
+    bind = bind or {}
+    out = set()
+    tid = "table_id"
+
+    def place(e):
+        t = U(subst(e, bind)).replace(" ", "") if bind else U(e).replace(" ", "")
+        for memo in ("_row_heights", "_col_widths"):
+            if t == f"self.{memo}[{tid}]":
+                return memo, "table"
+            if t == f"self.{memo}":
+                return memo, "all"
+        return None, None
+
+    def key(e):
+        return U(subst(e, bind)).replace(" ", "") if bind else U(e).replace(" ", "")
+
+    cls = repo.cls("model.py", "_NumbersModel")
+    methods = {m.name: m for m in cls.body if isinstance(m, ast.FunctionDef)}
+
+    def walk(sts, bind_):
+        nonlocal bind
+        saved = bind
+        bind = bind_
+        for st in sts:
+            if isinstance(st, ast.For) and isinstance(st.iter, ast.Name) and isinstance(bind.get(st.iter.id), list) and isinstance(st.target, ast.Name):
+                for a in bind[st.iter.id]:
+                    walk(st.body, {**bind, st.target.id: a})
+                continue
+            if isinstance(st, ast.For) and isinstance(st.iter, (ast.Tuple, ast.List)) and isinstance(st.target, ast.Name):
+                for a in st.iter.elts:
+                    walk(st.body, {**bind, st.target.id: (subst(a, bind) if bind else a)})
+                continue
+            if isinstance(st, ast.Delete):
+                for tg in st.targets:
+                    if isinstance(tg, ast.Subscript):
+                        memo, lvl = place(tg.value)
+                        if memo:
+                            out.add((memo, key(tg.slice) if lvl == "table" else "*"))
+            # nested blocks
+            for fld in ("body", "orelse", "finalbody"):
+                blk = getattr(st, fld, None)
+                if isinstance(blk, list) and blk and isinstance(blk[0], ast.stmt):
+                    walk(blk, bind)
+            heads = [st] if not hasattr(st, "body") else [getattr(st, "test", None), getattr(st, "iter", None)]
+            for h in heads:
+                if h is None:
+                    continue
+                for c in ast.walk(h):
+                    if not isinstance(c, ast.Call):
+                        continue
+                    f = c.func
+                    if isinstance(f, ast.Attribute) and f.attr in ("pop", "clear"):
+                        memo, lvl = place(f.value)
+                        if memo:
+                            if f.attr == "clear" or lvl == "all":
+                                out.add((memo, "*"))
+                            elif c.args:
+                                out.add((memo, key(c.args[0])))
+                        continue
+                    name = f.attr if isinstance(f, ast.Attribute) and isinstance(f.value, ast.Name) and f.value.id in ("self", "cls", "_NumbersModel") else None
+                    if name in methods and depth < 2 and methods[name] is not func:
+                        h_ = methods[name]
+                        decos = [U(d) for d in h_.decorator_list]
+                        params = [a.arg for a in h_.args.args]
+                        if "staticmethod" not in decos:
+                            params = params[1:]
+                        args = [subst(a, bind) if bind else a for a in c.args]
+                        b2 = dict(zip(params, args))
+                        if h_.args.vararg is not None:
+                            b2[h_.args.vararg.arg] = args[len(params):]
+                        # the helper's own name for the table id
+                        sub = _invalidations(repo, h_, h_.body, {k: v for k, v in b2.items()}, depth + 1)
+                        out.update(sub)
+        bind = saved
+
+    walk(stmts, bind)
+    return out
+
+
+def _extract_axes(ext):
+    """For each side, the set_cell_border calls that extract_strokes_in_layers reaches for one stroke run: a run of a
+    top/bottom layer addresses row = the layer's row_column_index and the columns origin .. origin+length; a run of a
+    left/right layer the reverse.  Read from the paths of the run loop's body, temporaries substituted."""
+    from ..funsum import Asg, tv3
+    from ..symexec import body_paths, lin_opaque, subst
+    side_p = ext.args.args[3].arg
+    outer = [n for n in ext.body if isinstance(n, ast.For)]
+    if len(outer) != 1:
+        raise AnalysisError("extract_strokes_in_layers: layer loop not found")
+    inner = [n for n in outer[0].body if isinstance(n, ast.For)]
+    if len(inner) != 1 or not isinstance(inner[0].target, ast.Name):
+        raise AnalysisError("extract_strokes_in_layers: stroke-run loop not found")
+    run_v = inner[0].target.id
+    if not U(inner[0].iter).endswith(".stroke_runs"):
+        raise AnalysisError("extract_strokes_in_layers: the inner loop does not walk stroke_runs")
+    layer_e = inner[0].iter.value  # <layer>.stroke_runs
+    env0 = {}
+    for st in outer[0].body:
+        if st is inner[0]:
+            break
+        if isinstance(st, ast.Assign) and len(st.targets) == 1 and isinstance(st.targets[0], ast.Name):
+            env0[st.targets[0].id] = subst(st.value, env0)
+    layer_t = U(subst(layer_e, env0))
+    problems = []
+    n_calls = 0
+    for side in ("top", "bottom", "left", "right"):
+        asg = Asg({side_p: side})
+        horizontal = side in ("top", "bottom")
+        found = 0
+        for conds, steps, _end in body_paths(list(inner[0].body)):
+            env = dict(env0)
+            events = sorted([(getattr(t, "lineno", 0), 0, (t, o)) for t, o in conds] + [(getattr(s_, "lineno", 0), 1, s_) for s_ in steps], key=lambda x: (x[0], x[1]))
+            feasible = True
+            for _ln, k, ev_ in events:
+                if k == 0:
+                    v = tv3(subst(ev_[0], env), asg)
+                    if v is None:
+                        raise AnalysisError(f"extract_strokes_in_layers: branch `{U(ev_[0])}` is not decided by the side")
+                    if v != ev_[1]:
+                        feasible = False
+                        break
+                    continue
+                st = ev_
+                if isinstance(st, ast.Assign) and len(st.targets) == 1 and isinstance(st.targets[0], ast.Name):
+                    env[st.targets[0].id] = subst(st.value, env)
+                elif isinstance(st, ast.For):
+                    calls = [c for c in ast.walk(st) if isinstance(c, ast.Call) and last_attr(c.func) == "set_cell_border"]
+                    if not calls:
+                        continue
+                    if not (isinstance(st.iter, ast.Call) and call_name(st.iter) == "range" and len(st.iter.args) == 2 and isinstance(st.target, ast.Name)):
+                        problems.append(f"side {side}: the cells of a run are not walked with range(start, end)")
+                        continue
+                    lo, hi = (subst(a_, env) for a_ in st.iter.args)
+                    span_ok = U(lo) == f"{run_v}.origin" and repr(lin_opaque(hi) - lin_opaque(lo)) == repr(lin_opaque(ast.parse(f"{run_v}.length", mode="eval").body))
+                    for c in calls:
+                        found += 1
+                        n_calls += 1
+                        if len(c.args) < 5:
+                            problems.append(f"side {side}: set_cell_border call with {len(c.args)} arguments")
+                            continue
+                        r_, c_ = U(subst(c.args[1], env)), U(subst(c.args[2], env))
+                        fixed, moving = (r_, c_) if horizontal else (c_, r_)
+                        if not (fixed == f"{layer_t}.row_column_index" and moving == st.target.id and span_ok and U(subst(c.args[3], env)) == side_p):
+                            problems.append(f"side {side}: border set at (row={r_}, col={c_}) for `{st.target.id}` in range({U(lo)}, {U(hi)}): a "
+                                            f"{'horizontal' if horizontal else 'vertical'} run must fix the {'row' if horizontal else 'column'} at the layer's index and cover origin .. origin+length")
+            if not feasible:
+                continue
+        if found == 0:
+            problems.append(f"side {side}: no set_cell_border call is reached")
+    return not problems, "; ".join(problems[:2])
 
 
 def run(repo, rep, tier):
@@ -269,8 +427,11 @@ def run(repo, rep, tier):
         memo = "_row_heights" if axis == "row" else "_col_widths"
         idx = "row" if axis == "row" else "col"
         nbi = nb_row if axis == "row" else nb_col
-        okm = f"self.{memo}[table_id].pop({idx},None)" in txt and f"self.{memo}[table_id].pop({nbi},None)" in txt
-        rep.ob("C15.R3", body[0], f"side {side}: size memo of both affected {axis}s invalidated", okm, "", key=f"C15.R3@{side}:memo")
+        inv = _invalidations(repo, mscb, body)
+        need = {(memo, idx), (memo, nbi)}
+        okm = need <= inv or (memo, "*") in inv
+        rep.ob("C15.R3", body[0], f"side {side}: size memo of both affected {axis}s invalidated", okm,
+               "" if okm else f"entries dropped: {sorted(inv)}; needed {sorted(need)}: a memoised {axis} size keeps the allowance of the old border", key=f"C15.R3@{side}:memo")
     cfs = repo.func("model.py", "_NumbersModel.cell_for_stroke")
     s = U(cfs).replace(" ", "").replace("\n", "")
     ok = "ifrow<0orcol<0:returnNone" in s and "ifrow>=len(data)orcol>=len(data[row]):returnNone" in s
@@ -296,17 +457,31 @@ def run(repo, rep, tier):
         abr[miss[0]] = abr.pop("else")
     ex = repo.func("model.py", "_NumbersModel.extract_strokes")
     ex_s = U(ex).replace(" ", "")
+    # the layer list, the layer index and the run origin that add_stroke works with, per side: the locals are read off
+    # the path the side selects, at the loop that looks for the layer
+    from ..funsum import env_before
+    layer_loop = next((n for n in ads.body if isinstance(n, ast.For) and "row_column_index" in U(n)), None)
+    if layer_loop is None or not isinstance(layer_loop.iter, ast.Name):
+        raise AnalysisError("add_stroke: the loop that looks for the stroke layer was not found")
+    cmp_ = next((c for c in ast.walk(layer_loop) if isinstance(c, ast.Compare) and len(c.ops) == 1 and isinstance(c.ops[0], ast.Eq)
+                 and (U(c.left).endswith(".row_column_index") or U(c.comparators[0]).endswith(".row_column_index"))), None)
+    if cmp_ is None:
+        raise AnalysisError("add_stroke: the layer is not selected by comparing row_column_index")
+    idx_e = cmp_.comparators[0] if U(cmp_.left).endswith(".row_column_index") else cmp_.left
+    side_param = ads.args.args[4].arg if len(ads.args.args) > 4 else "side"
+    origin_name = "origin"
     for side, (layer, rci, org) in LAY.items():
-        body = abr.get(side, [])
-        d = {U(b.targets[0]): U(b.value) for b in body if isinstance(b, ast.Assign)}
-        ok = d.get("layer_ids") == f"sidecar_obj.{layer}" and d.get("row_column_index") == rci and d.get("origin") == org
-        rep.ob("C15.R4", body[0] if body else ads, f"add_stroke {side}: layers={layer}, index={rci}, origin={org}", ok, f"{d}", key=f"C15.R4@add:{side}")
+        env = env_before(ads.body, layer_loop, {side_param: side}, ads.name)
+        from ..symexec import subst as _subst
+        d = {"layer_ids": U(_subst(layer_loop.iter, env)), "row_column_index": U(_subst(idx_e, env)), "origin": U(env.get(origin_name, ast.Name(id=origin_name, ctx=ast.Load())))}
+        ok = d["layer_ids"] == f"self.objects[self.objects[table_id].stroke_sidecar.identifier].{layer}" and d["row_column_index"] == rci and d["origin"] == org
+        if not ok and d["layer_ids"] == f"sidecar_obj.{layer}":
+            ok = d["row_column_index"] == rci and d["origin"] == org
+        rep.ob("C15.R4", layer_loop, f"add_stroke {side}: layers={layer}, index={rci}, origin={org}", ok, f"{d}", key=f"C15.R4@add:{side}")
         ok = f"self.extract_strokes_in_layers(table_id,sidecar_obj.{layer},'{side}')" in ex_s
         rep.ob("C15.R4", ex, f"extract_strokes reads {layer} as side {side}", ok, "", key=f"C15.R4@extract:{side}")
-    s = U(ext).replace(" ", "").replace("\n", "")
-    ok = "ifsidein['top','bottom']:start_row=stroke_layer.row_column_indexstart_column=stroke_run.originforcolinrange(start_column,start_column+stroke_run.length):self.set_cell_border(table_id,start_row,col,side,border_value)" in s \
-        and "else:start_row=stroke_run.originstart_column=stroke_layer.row_column_indexforrowinrange(start_row,start_row+stroke_run.length):self.set_cell_border(table_id,row,start_column,side,border_value)" in s
-    rep.ob("C15.R4", ext, "extract: horizontal strokes index rows and run over columns; vertical strokes the reverse", ok, "", key="C15.R4@extract:axes")
+    ok, detail_axes = _extract_axes(ext)
+    rep.ob("C15.R4", ext, "extract: horizontal strokes index rows and run over columns; vertical strokes the reverse", ok, detail_axes, key="C15.R4@extract:axes")
     ok = "ifself.objects[layer_id.identifier].row_column_index==row_column_index:stroke_layer=self.objects[layer_id.identifier]" in s_add
     rep.ob("C15.R4", ads, "add_stroke patches the layer of the same row/column index", ok, "", key="C15.R4@add:layer-match")
     check_patching(repo, rep, ads)
@@ -428,6 +603,12 @@ def check_patching(repo, rep, ads):
         appended = None
         replaced = False
         for st in node.body:
+            if isinstance(st, ast.AugAssign) and isinstance(st.op, (ast.Add, ast.Sub)):
+                # ``x.f -= e`` is ``x.f = x.f - e``
+                ld = copy.deepcopy(st.target)
+                ld.ctx = ast.Load()
+                st = ast.copy_location(ast.Assign(targets=[st.target], value=ast.BinOp(left=ld, op=st.op, right=st.value)), st)
+                ast.fix_missing_locations(st)
             if isinstance(st, ast.Assign):
                 t = U(st.targets[0])
                 if t == "stroke_run.origin":
@@ -500,6 +681,20 @@ def sym_after(value, sym, cur_S, cur_L, cur_mode=None):
 
 
 VARIANTS = [
+    M("add-stroke-right-indexed-by-row", "model.py", "            layer_ids = sidecar_obj.right_column_stroke_layers\n            row_column_index = col\n            origin = row",
+      "            layer_ids = sidecar_obj.right_column_stroke_layers\n            row_column_index = row\n            origin = col", "C15.R4"),
+    M("add-stroke-bottom-in-top-layers", "model.py", "            layer_ids = sidecar_obj.bottom_row_stroke_layers", "            layer_ids = sidecar_obj.top_row_stroke_layers", "C15.R4"),
+    T("add-stroke-augmented-length", "model.py", "                    stroke_run.origin = origin + length\n                    stroke_run.length = stroke_run.length - length",
+      "                    stroke_run.origin = origin + length\n                    stroke_run.length -= length"),
+    M("extract-vertical-axes-swapped", "model.py", "self.set_cell_border(table_id, row, start_column, side, border_value)", "self.set_cell_border(table_id, start_column, row, side, border_value)", "C15.R4"),
+    M("extract-run-one-short", "model.py", "for col in range(start_column, start_column + stroke_run.length):", "for col in range(start_column, start_column + stroke_run.length - 1):", "C15.R4"),
+    M("extract-left-treated-horizontal", "model.py", '                if side in ["top", "bottom"]:\n                    start_row = stroke_layer.row_column_index', '                if side in ["top", "bottom", "left"]:\n                    start_row = stroke_layer.row_column_index', "C15.R4"),
+    M("border-memo-neighbour-kept", "model.py", "                self._row_heights[table_id].pop(row, None)\n                self._row_heights[table_id].pop(row - 1, None)",
+      "                self._row_heights[table_id].pop(row, None)", "C15.R3"),
+    M("border-memo-wrong-axis", "model.py", "                self._col_widths[table_id].pop(col, None)\n                self._col_widths[table_id].pop(col + 1, None)",
+      "                self._row_heights[table_id].pop(col, None)\n                self._row_heights[table_id].pop(col + 1, None)", "C15.R3"),
+    T("border-memo-del-form", "model.py", "                self._row_heights[table_id].pop(row, None)\n                self._row_heights[table_id].pop(row + 1, None)",
+      "                for stale in (row, row + 1):\n                    self._row_heights[table_id].pop(stale, None)"),
     M("style-shared-by-id", "cell.py", "            self._style = Style.from_storage(self, self._model)\n", "            self._style = self._model._style_cache.setdefault((self._text_style_id, self._cell_style_id), Style.from_storage(self, self._model))\n", "C15.R2"),
     M("revert-fix-apply-then-stamp", "document.py", "        self._model.add_stroke(self._table_id, row, col, side, border_value, length)\n\n        if side in [\"top\", \"bottom\"]:",
       "        if side in [\"top\", \"bottom\"]:", "C15.R1",
